@@ -430,8 +430,8 @@ func VerifC50_bigdelta() {
 var c50atoms = []rune{'a', '1', '-', 'A', 0xfc, 0x5d0, 0x627, 0x660}
 
 // VerifC50_names (B): multi-label names whose labels are enumerated over every sequence of atoms from c50atoms (quick:
-// one label of 1..3 atoms, two labels of 1..2 atoms, three labels of 1 atom; thorough: two labels of 1..3 atoms, three
-// labels of 1..2, 1, 1..2 atoms), each non-ASCII label spelled either as a U-label or as the A-label produced by encode
+// one label of 1..3 atoms, two labels of 1..2 atoms, three labels of 1 atom; thorough: in names of two or three labels
+// one label, at any position, may have one more atom), each non-ASCII label spelled either as a U-label or as the A-label produced by encode
 // (so the name-wide state of Profile.process - the bidi flag accumulated over U-labels and decoded A-labels, the error
 // of an earlier label - is exercised in every order and spelling); profiles Punycode, Lookup,
 // Display, Registration. Concrete inputs: the x/text tries are walked concretely. Oracle = the statement: if ToASCII
@@ -439,14 +439,16 @@ var c50atoms = []rune{'a', '1', '-', 'A', 0xfc, 0x5d0, 0x627, 0x660}
 func VerifC50_names() {
 	prof := c50profile(vfChoice("profile", 4))
 	nl := vfLen("labels", 1, 3)
+	long := -1
+	if vfTier() > 0 && nl > 1 {
+		long = vfChoice("long", nl)
+	}
 	x := ""
 	anyA, anyU := false, false
 	for i := 0; i < nl; i++ {
-		maxAtoms := 4 - nl // quick: 3, 2, 1 atoms per label for names of 1, 2, 3 labels
-		if vfTier() > 0 && nl == 2 {
-			maxAtoms = 3
-		} else if vfTier() > 0 && nl == 3 && i != 1 {
-			maxAtoms = 2
+		maxAtoms := 4 - nl // 3, 2, 1 atoms per label for names of 1, 2, 3 labels; thorough: one more for one label
+		if i == long {
+			maxAtoms++
 		}
 		na := vfLen("atoms", 1, maxAtoms)
 		rs := make([]rune, na)
